@@ -831,6 +831,9 @@ class GraphBuilder(BuilderBase):
         # The inliner prefixes all names, which would prevent name-based lookup
         # from matching the original graph output names.
         output_value_ids = {id(v) for v in outputs if v is not None}
+        # An output that is not produced by the inlined nodes (the function returns one of
+        # its inputs) is a value of the caller: it must keep its name.
+        produced_value_ids = {id(o) for node in nodes for o in node.outputs}
 
         for node in nodes:
             for output in node.outputs:
@@ -841,11 +844,15 @@ class GraphBuilder(BuilderBase):
         # Apply names to final output values
         if desired_output_names:
             for output_val, name in zip(outputs, desired_output_names):
-                if output_val is not None:
+                if output_val is not None and id(output_val) in produced_value_ids:
                     output_val.name = name
         else:
             for output_val in outputs:
-                if output_val is not None and output_val.name:
+                if (
+                    output_val is not None
+                    and output_val.name
+                    and id(output_val) in produced_value_ids
+                ):
                     output_val.name = self._qualify_value_name(output_val.name)
 
         if _prefix:
